@@ -32,12 +32,57 @@ LIMIT = 65536
 CODES = [110, 120, 125, 150, 200, 202, 211, 213, 220, 221, 226, 227, 230, 250, 257, 331, 332, 350,
          421, 425, 426, 450, 451, 500, 501, 502, 503, 530, 550, 553]
 
-HEADER = '''From Coq Require Import List NArith Bool String.
+# Byte strings enter Coq as literals of a byte-list string notation (elaborating a `string` literal costs about
+# 60 us per character, a `list byte` literal half of that) and are decoded from hex by bx / bx6 below.
+HEADER = '''From Coq Require Import List NArith Bool.
+From Coq Require Import Strings.Byte.
 From Wpull Require Import Lib.Hex Model.FtpConn Model.Ftp.
 Import ListNotations.
-Open Scope string_scope.
 Open Scope N_scope.
+Inductive bstr := BStr (l : list byte).
+Definition bstr_parse (l : list byte) : bstr := BStr l.
+Definition bstr_print (b : bstr) : list byte := match b with BStr l => l end.
+Declare Scope bstr_scope.
+Delimit Scope bstr_scope with bstr.
+String Notation bstr bstr_parse bstr_print : bstr_scope.
+Definition hv (b : byte) : N := let n := Byte.to_N b in if n <? 58 then n - 48 else n - 87.
+Fixpoint bx_aux (l : list byte) : list N :=
+  match l with a :: b :: r => (hv a * 16 + hv b) :: bx_aux r | _ => [] end.
+Definition bx (s : bstr) : list N := match s with BStr l => bx_aux l end.
+Fixpoint bx6_aux (l : list byte) : list N :=
+  match l with
+  | a :: b :: c :: d :: e :: f :: r =>
+      (((((hv a * 16 + hv b) * 16 + hv c) * 16 + hv d) * 16 + hv e) * 16 + hv f) :: bx6_aux r
+  | _ => []
+  end.
+Definition bx6 (s : bstr) : list N := match s with BStr l => bx6_aux l end.
+Definition sub (d : list N) (off n : nat) : list N := firstn n (skipn off d).
 '''
+
+
+def _b(h):
+    """Coq expression (list N) for the bytes given in hex; long runs of one byte become `repeat`"""
+    if len(h) < 400:
+        return '(bx "%s"%%bstr)' % h
+    b = bytes.fromhex(h)
+    parts = []
+    i = 0
+    lit = bytearray()
+    while i < len(b):
+        j = i
+        while j < len(b) and b[j] == b[i]:
+            j += 1
+        if j - i >= 64:
+            if lit:
+                parts.append('bx "%s"%%bstr' % lit.hex())
+                lit = bytearray()
+            parts.append('repeat %d (N.to_nat %d)' % (b[i], j - i))
+        else:
+            lit += b[i:j]
+        i = j
+    if lit:
+        parts.append('bx "%s"%%bstr' % lit.hex())
+    return '(' + ' ++ '.join(parts) + ')'
 
 
 # --------------------------------------------------------------------------
@@ -225,7 +270,24 @@ def gen_visit(r, url, *, listing=None, plain=False, mutate=None):
     return {'kind': 'visit', 'url': url, 'req_user': req_user, 'req_pass': req_pass, 'restart': restart,
             'listing': listing, 'fresh': fresh, 'cached': cached, 'limit': LIMIT,
             'ctrl': ctrl.hex(), 'ctrl_segs': r.choice(_seglists(r, len(ctrl), 3)),
-            'data': data.hex(), 'data_segs': r.choice(_seglists(r, len(data), 3)) if data else []}
+            'data': data.hex(), 'data_segs': r.choice(_seglists(r, len(data), 3)) if data else [],
+            'net': gen_net(r, len(ctrl), len(data))}
+
+
+def gen_net(r, nc, nd):
+    """arrival schedule: one (a, b) per primitive step (a visit has about 15 + one per data read)"""
+    t = r.randrange(6)
+    if t == 0:
+        return []
+    if t == 1:          # everything is in the buffers before the client reads anything: the 226 long before the data EOF
+        return [[nc, nd]]
+    if t == 2:          # the whole control stream (226 included) arrives at some step, the data trickles
+        k = r.randrange(0, 14)
+        return [[0, 0]] * k + [[nc, 0]] + [[0, r.choice([0, 1, 3])] for _ in range(6)]
+    if t == 3:          # data is complete in its buffer early, control trickles
+        k = r.randrange(0, 14)
+        return [[r.choice([0, 1, 2]), 0] for _ in range(k)] + [[0, nd]] + [[r.choice([0, 1, 7]), 0] for _ in range(6)]
+    return [[r.choice([0, 0, 1, 2, 5, 30, nc]), r.choice([0, 0, 1, 4, 4096, nd])] for _ in range(r.randrange(1, 24))]
 
 
 def gen_visit_cases(r, thorough):
@@ -323,7 +385,7 @@ def _nat_list(xs):
 
 
 def _cps(cps):
-    return 'unhex6 "%s"' % ''.join('%06x' % c for c in cps)
+    return 'bx6 "%s"%%bstr' % ''.join('%06x' % c for c in cps)
 
 
 def _str(s):
@@ -334,8 +396,15 @@ def _opt(x, f):
     return 'None' if x is None else '(Some (%s))' % f(x)
 
 
+def _rest_expr(stream, rest):
+    """the unread bytes, as a suffix of the stream literal when they are one"""
+    if rest and stream.endswith(rest):
+        return '(skipn %d s)' % ((len(stream) - len(rest)) // 2)
+    return _b(rest)
+
+
 def _robs(reads):
-    return '[' + '; '.join('ROk %d (unhex "%s")' % (x['ok'][0], x['ok'][1]) if 'ok' in x else 'RErr %s' % _coq_err(x['err'])
+    return '[' + '; '.join('ROk %d %s' % (x['ok'][0], _b(x['ok'][1])) if 'ok' in x else 'RErr %s' % _coq_err(x['err'])
                            for x in reads) + ']'
 
 
@@ -346,22 +415,22 @@ def coq_checks(case, res):
     if k == 'reply':
         run0 = res['runs'][0]
         if case.get('tag') == 'allsplits':
-            out.append(('check_reads_all %d %d (unhex "%s") %s (unhex "%s")' % (
-                case['limit'], case['nreads'], case['stream'], _robs(run0['reads']), run0['rest']), 'all'))
+            out.append(('check_reads_all %d %d %s %s %s' % (
+                case['limit'], case['nreads'], _b(case['stream']), _robs(run0['reads']), _b(run0['rest'])), 'all'))
         else:
             for lens, run in list(zip(case['seglists'], res['runs']))[:case.get('coq_seglists', 4)]:
-                out.append(('check_reads %d %d (mkConn [] (unhex "%s") %s) %s (unhex "%s")' % (
-                    case['limit'], case['nreads'], case['stream'], _nat_list([n - 1 for n in lens if n > 0]),
-                    _robs(run['reads']), run['rest']), lens))
+                out.append(('let s := %s in check_reads %d %d (mkConn [] s %s) %s %s' % (
+                    _b(case['stream']), case['limit'], case['nreads'], _nat_list([n - 1 for n in lens if n > 0]),
+                    _robs(run['reads']), _rest_expr(case['stream'], run['rest'])), lens))
     elif k == 'parse':
         if 'ok' in res:
             code, text = res['ok']
-            exp = '(Some (%s, %s))' % (_opt(code, str), _opt(text, lambda t: 'unhex "%s"' % t))
+            exp = '(Some (%s, %s))' % (_opt(code, str), _opt(text, _b))
         else:
             exp = 'None' if res['err'] == 'protocol' else '(Some (Some 999999, None))'
-        out.append(('check_parse [%s] %s' % ('; '.join('unhex "%s"' % d for d in case['datas']), exp), ''))
+        out.append(('check_parse [%s] %s' % ('; '.join(_b(d) for d in case['datas']), exp), ''))
     elif k == 'cmd':
-        exp = 'CmdOk (unhex "%s")' % res['ok'] if 'ok' in res else {'protocol': 'CmdProtocolErr', 'encode': 'CmdEncodeErr'}.get(res['err'], 'CmdOk [999]')
+        exp = 'CmdOk %s' % _b(res['ok']) if 'ok' in res else {'protocol': 'CmdProtocolErr', 'encode': 'CmdEncodeErr'}.get(res['err'], 'CmdOk [999]')
         out.append(('cmd_eqb (to_bytes (%s) (%s)) (%s)' % (_str(case['name']), _cps(case['arg']), exp), ''))
     elif k == 'addr':
         exp = '(Some ([%s], %d))' % ('; '.join(str(x) for x in res['ok'][0]), res['ok'][1]) if 'ok' in res else \
@@ -376,26 +445,36 @@ def coq_checks(case, res):
             _cps(d['path']), _opt(case.get('restart'), str), 'true' if case['listing'] else 'false')
         cached = _opt(case.get('cached'), lambda c: '%s, %s' % (_str(c[0]), _str(c[1])))
         evs = []
+        off = 0
         for e in res['events']:
             if e.startswith('W:'):
-                evs.append('EvWrite (unhex "%s")' % e[2:])
+                evs.append('EvWrite %s' % _b(e[2:]))
             elif e.startswith('R:'):
                 evs.append('EvReply %s' % e[2:])
+            elif e.startswith('RS:'):
+                evs.append('EvRestart %s' % e[3:])
             elif e.startswith('O:'):
                 host, port = e[2:].rsplit(':', 1)
                 evs.append('EvDataOpen [%s] %s' % ('; '.join(host.split('.')), port))
             elif e.startswith('D:'):
-                evs.append('EvData (unhex "%s")' % e[2:])
+                # a chunk that is the next slice of the data stream is written as that slice of the one literal
+                if case['data'][off:off + len(e) - 2] == e[2:]:
+                    evs.append('EvData (sub d %d %d)' % (off // 2, (len(e) - 2) // 2))
+                    off += len(e) - 2
+                else:
+                    evs.append('EvData %s' % _b(e[2:]))
+                    off = -1 << 40
             elif e == 'E':
                 evs.append('EvDataEof')
             elif e == 'C':
                 evs.append('EvDataClose')
         o = res['outcome']
-        outcome = '(Ok (%d, unhex "%s"))' % (o['ok'][0], o['ok'][1]) if 'ok' in o else '(Err %s)' % _coq_err(o['err'])
-        out.append(('check_visit %d (%s) %s %s (mkConn [] (unhex "%s") %s) (mkConn [] (unhex "%s") %s) [%s] %s' % (
-            case.get('limit', LIMIT), q, 'true' if case['fresh'] else 'false', cached,
-            case['ctrl'], _nat_list([n - 1 for n in case['ctrl_segs'] if n > 0]),
-            case['data'], _nat_list([n - 1 for n in case['data_segs'] if n > 0]),
+        outcome = '(Ok (%d, %s))' % (o['ok'][0], _b(o['ok'][1])) if 'ok' in o else '(Err %s)' % _coq_err(o['err'])
+        net = '[' + '; '.join('(%d, %d)' % (a, b) for a, b in case.get('net') or []) + ']%nat'
+        out.append(('let d := %s in check_visit %d (%s) %s %s (mkConn [] %s %s) (mkConn [] d %s) %s [%s] %s' % (
+            _b(case['data']), case.get('limit', LIMIT), q, 'true' if case['fresh'] else 'false', cached,
+            _b(case['ctrl']), _nat_list([n - 1 for n in case['ctrl_segs'] if n > 0]),
+            _nat_list([n - 1 for n in case['data_segs'] if n > 0]), net,
             '; '.join(evs), outcome), ''))
     return out
 
